@@ -4,6 +4,7 @@ pub mod c01;
 pub mod c02;
 pub mod c06;
 pub mod c08;
+pub mod c09;
 pub mod c10;
 pub mod c11;
 pub mod c15;
